@@ -63,7 +63,11 @@ struct vin_s nondet_vin(void);
 #define VIN_INIT() do { vin = nondet_vin(); } while (0)
 #define VASSERT(c, msg) __CPROVER_assert((c), msg)
 #define VASSUME(c) __CPROVER_assume(c)
+#ifdef NO_WITNESS
+#define VWITNESS(msg) do { } while (0)
+#else
 #define VWITNESS(msg) __CPROVER_assert(0, "WITNESS " msg)
+#endif
 #endif
 
 #endif
